@@ -445,6 +445,13 @@ EvCInit ==
   /\ l' = l + 1
   /\ Keep(<<acc, cs, ip, cid, dc, ds, ss, seen>>)
 
+\* does `field` equal the Adler-32 of PlainK[1..k] for some k in have..lim, given acc = Adler-32 of PlainK[1..have]?
+RECURSIVE AdlerOfSomePrefix(_, _, _, _)
+AdlerOfSomePrefix(sum, have, lim, field) ==
+  IF sum = field THEN TRUE
+  ELSE IF have >= lim THEN FALSE
+  ELSE AdlerOfSomePrefix(AdlerStep(sum, PlainK[have + 1]), have + 1, lim, field)
+
 EvCCall ==
   /\ Is("c_call")
   /\ LET e == E
@@ -456,7 +463,17 @@ EvCCall ==
          \* C06 through the C API: at stream end the totals show exactly the encoded length
          exact == ~isdef /\ e.ret = 1 /\ cs # 0 /\ K.v = "done" =>
                      e.after.total_in = K.endbyte /\ e.after.total_out = K.plen
-     IN /\ Report(CallRules(e, newcc, chk) \o CIff("c_stream_end_totals_are_exact", exact), 6)
+         \* C16: the adler field of an inflate stream is the checksum of the output *produced* so far, which
+         \* may run ahead of what has been delivered (by at most the 32 KiB window) - also after a call
+         \* that returned an error code having made progress
+         \* (before the two header bytes have been consumed the decoder exposes no checksum at all:
+         \* DecompressorOxide::adler32() is None and the field reads 0)
+         ahead == ~isdef /\ e.zlib /\ cs # 0 /\ K.v = "done" /\ ~acc.produce /\ e.ret \in {0, 1, -5}
+                    /\ e.after.total_in >= 2
+                    /\ e.after.total_out <= K.plen /\ (e.ret # 0 \/ K.plen - e.after.total_out <= 3000)
+                  => AdlerOfSomePrefix(newcc, e.after.total_out, K.plen, e.after.adler)
+     IN /\ Report(CallRules(e, newcc, chk) \o CIff("c_stream_end_totals_are_exact", exact)
+                  \o CIff("c_inflate_adler_field_is_checksum_of_output_produced", ahead), 7)
         /\ cc' = newcc
   /\ l' = l + 1
   /\ Keep(<<acc, cs, ip, cid, dc, ds, ss, seen>>)
